@@ -1,4 +1,5 @@
 import P2.Model.TxLts
+import P2.Extracted.C10
 /-
 C10 — Store transactions are atomic and serialized under any abort point.
 
@@ -366,6 +367,19 @@ theorem c10_progress {s : St} (h : Reach s) (t : Nat) (hw : s.pc t = .waiting) :
           · exact hfin2 a ha
         · rw [runActs_append, hrun]; exact hrun2
   exact key s.queue.length s h hw rfl
+
+/-- **Tie to the source text** (re-extracted from `impl Drop for TransactionPermit` on every run): the clean-up
+    task is spawned exactly when the permit was *not* marked committed, it owns a clone of the semaphore permit,
+    and its statements are, in this order: take the transaction out of the slot, roll it back, and only then
+    `drop(permit)` — the order of the model's `rbTake` before `rbRelease` (and of `dropPermit` moving the
+    permit to the spawned task). Moving `drop(permit)` before the rollback, inverting the condition or not
+    cloning the permit breaks this theorem before any schedule is run. -/
+theorem c10_extracted_drop :
+    P2.Extracted.C10.dropCondition = "!self.committed" ∧
+    P2.Extracted.C10.permitMovedIntoTask = true ∧
+    P2.Extracted.C10.dropTaskStmts =
+      ["if let Some(tx) = tx.lock().await.take() {", "let _ = tx.rollback().await;", "}", "drop(permit);"] := by
+  decide
 
 /-! ### the variant the harness is meant to catch, and non-vacuity -/
 
